@@ -1342,9 +1342,9 @@ def c08_decode_for(ver, role, win1=False, nb=False):
             elif t == 4:
                 cmds += [{"c": "send", "s": nxt, "k": "stream1", "id": 0, "plen": 6}, {"c": "poll", "s": nxt}]
                 cur = nxt; nxt += 1
-            elif t in (5, 6, 7):
+            elif t in (5, 6, 7, 21):
                 if cur:
-                    cmds.append({"c": "chunk", "s": cur, "n": {5: 2, 6: 4, 7: 7}[t], "t": 40 + nxt}); nxt += 1
+                    cmds.append({"c": "chunk", "s": cur, "n": {5: 2, 6: 4, 7: 7, 21: 0}[t], "t": 40 + nxt}); nxt += 1
             elif t == 8:
                 if cur:
                     cmds.append({"c": "sdrop", "s": cur}); cur = 0
@@ -1393,7 +1393,7 @@ CHECK_DEADLOCK FALSE
 """
 
 OUT_TOK = {"q0": 1, "q1": 2, "q2": 3, "s1": 4, "c2": 5, "c4": 6, "c7": 7, "sd": 8, "s0": 9, "q1long": 10, "q1big": 11,
-           "q1id1": 12, "in1": 13, "ack": 14, "close": 15, "ctl": 16, "q0id": 17, "s1long": 18, "q1nb": 20}
+           "q1id1": 12, "in1": 13, "ack": 14, "close": 15, "ctl": 16, "q0id": 17, "s1long": 18, "q1nb": 20, "c0": 21}
 
 
 def out_decode_for(ver, role, nb=False):
@@ -1418,6 +1418,8 @@ def c08_model_configs(tier):
             cs.append((f"m_v{ver}{role[0]}_all", OUT_CFG.format(ver=ver, role=role, toks="TAll", n=3 if tier == "quick" else 4), "MC_Out",
                        out_decode_for(ver, role), [None], 800 if tier == "quick" else 8000))
             cs.append((f"m_v{ver}{role[0]}_strm", OUT_CFG.format(ver=ver, role=role, toks="TStream", n=4 if tier == "quick" else 5), "MC_Out",
+                       out_decode_for(ver, role), [None], 800 if tier == "quick" else 8000))
+            cs.append((f"m_v{ver}{role[0]}_empty", OUT_CFG.format(ver=ver, role=role, toks="TEmpty", n=4), "MC_Out",
                        out_decode_for(ver, role), [None], 800 if tier == "quick" else 8000))
             cs.append((f"m_v{ver}{role[0]}_nb", OUT_CFG.format(ver=ver, role=role, toks="TNb", n=4), "MC_Out",
                        out_decode_for(ver, role, nb=True), [None], 800 if tier == "quick" else 8000))
